@@ -109,6 +109,18 @@ def attempt(f, *a, **kw):
         return "exc", "%s: %s" % (type(e).__name__, str(e)[:120])
 
 
+def project(obs, exp):
+    """the observed value restricted to what the reference defines: additional fields of a mapping are not judged, tuples are
+    lists; a missing field shows as "<missing>" """
+    if isinstance(exp, dict) and hasattr(obs, "items"):
+        return {k: (project(obs[k], exp[k]) if k in obs else "<missing>") for k in exp}
+    if isinstance(exp, (list, tuple)) and isinstance(obs, (list, tuple)) and len(obs) == len(exp):
+        return [project(o, e) for o, e in zip(obs, exp)]
+    if isinstance(obs, tuple):
+        return list(obs)
+    return obs
+
+
 def V(key, msg, observed=None, expected=None, case=None):
     """A violation record. `key` = <prop>:<seam>:<input-class>[:detail] (see DESIGN appendix A)."""
     d = {"key": key, "msg": msg}
